@@ -1,10 +1,231 @@
-(* C09 property theorems: statements only, each closed by `exact`, with Print Assumptions. *)
-From Coq Require Import ZArith QArith List Bool Arith.
+(* C09 property theorems: statements only, each closed by `exact`, with Print Assumptions.
+   Model: C09/Model.v (+ certifying solver C09/Solve.v); spec-level notions (ext_le, ext_lt,
+   dotS, pair_valS, ddp_ok, Tv_at, greedy_at, amax_inv, iterT) are defined in C09/Proofs1-3.v. *)
+From Coq Require Import ZArith QArith Qabs List Bool Arith Lia Lqa Sorted.
 From QE Require Import Base.Num Base.Cases C09.Solve C09.Model C09.Proofs C09.Findings.
 Import ListNotations.
+
+(* ---- state-wise max kernel: every Num instance whose nltb is a strict weak order ---- *)
+Theorem C09_swise_max_spec :
+  forall (T : Type) (NT : Num T),
+  (forall a : T, nltb a a = false) ->
+  (forall a b c : T, nltb a b = true -> nltb b c = true -> nltb a c = true) ->
+  (forall a b c : T, nltb a b = true -> nltb a c = true \/ nltb c b = true) ->
+  forall (aidx indptr : list nat) (vals : list (ext T)) (n s : nat),
+  (s < n)%nat -> (getn indptr s < getn indptr (S s))%nat ->
+  exists m, nth s (s_wise_max_argmax aidx indptr vals n) None = Some (gete vals m, getn aidx m) /\
+            nth s (s_wise_max aidx indptr vals n) None = Some (gete vals m) /\
+            (getn indptr s <= m < getn indptr (S s))%nat /\
+            (forall i, (getn indptr s <= i < getn indptr (S s))%nat -> ext_gtb (gete vals i) (gete vals m) = false) /\
+            (forall i, (getn indptr s <= i < m)%nat -> ext_gtb (gete vals m) (gete vals i) = true).
+Proof. exact (@swise_max_spec). Qed.
+Print Assumptions C09_swise_max_spec.
+
+Theorem C09_swise_max_spec_Q :
+  forall aidx indptr (vals : list (ext Q)) n s,
+  (s < n)%nat -> (getn indptr s < getn indptr (S s))%nat ->
+  exists m, (getn indptr s <= m < getn indptr (S s))%nat /\
+            nth s (s_wise_max_argmax aidx indptr vals n) None = Some (gete vals m, getn aidx m) /\
+            nth s (s_wise_max aidx indptr vals n) None = Some (gete vals m) /\
+            (forall j, (getn indptr s <= j < getn indptr (S s))%nat -> ext_le (gete vals j) (gete vals m)) /\
+            (forall j, (getn indptr s <= j < m)%nat -> ext_lt (gete vals j) (gete vals m)).
+Proof. exact swise_max_spec_Q. Qed.
+Print Assumptions C09_swise_max_spec_Q.
+
+(* ---- bellman_operator / compute_greedy ---- *)
+Theorem C09_bellman_is_max :
+  forall (d : ddp Q) v s, ddp_ok d -> (s < d_n d)%nat ->
+  exists m r,
+    (seg_lo d s <= m < seg_hi d s)%nat /\
+    gete (d_R d) m = Fin r /\
+    Tv_at d v s == r + d_beta d * dotS (getrow (d_Q d) m) v /\
+    greedy_at d v s = getn (d_aidx d) m /\
+    (forall j, (seg_lo d s <= j < seg_hi d s)%nat ->
+               ext_le (pair_valS (d_beta d) v (gete (d_R d) j) (getrow (d_Q d) j)) (Fin (Tv_at d v s))) /\
+    (forall j, (seg_lo d s <= j < m)%nat ->
+               ext_lt (pair_valS (d_beta d) v (gete (d_R d) j) (getrow (d_Q d) j)) (Fin (Tv_at d v s))).
+Proof. exact bellman_is_max. Qed.
+Print Assumptions C09_bellman_is_max.
+
+(* ---- T_sigma, RQ_sigma / controlled_mc, evaluate_policy ---- *)
+Theorem C09_T_sigma_affine :
+  forall beta Rs Qs v i, (i < length Rs)%nat -> (i < length Qs)%nat ->
+  nth i (T_sigma_rq beta Rs Qs v) 0 == nth i Rs 0 + beta * dotS (nth i Qs []) v.
+Proof. exact T_sigma_entry. Qed.
+Print Assumptions C09_T_sigma_affine.
+
+Theorem C09_RQ_sigma_rows :
+  forall (d : ddp Q) sigma Rs Qs,
+  RQ_sigma d sigma = Some (Rs, Qs) ->
+  exists idx, sigma_indices d sigma = Some idx /\ Rs = map (gete (d_R d)) idx /\ Qs = map (getrow (d_Q d)) idx /\
+              controlled_mc d sigma = Some Qs /\
+              length idx = d_n d /\ length sigma = d_n d /\
+              forall s, (s < d_n d)%nat ->
+                (getn (d_indptr d) s <= getn idx s < getn (d_indptr d) (S s))%nat /\
+                getn (d_aidx d) (getn idx s) = getn sigma s.
+Proof. exact RQ_sigma_rows_full. Qed.
+Print Assumptions C09_RQ_sigma_rows.
+
+Theorem C09_solve_checked_correct :
+  forall (A : list (list Q)) (b x : list Q),
+  solve_checked A b = Some x ->
+  length x = length A /\ length b = length A /\ forall i, (i < length A)%nat -> dotS (nth i A []) x == nth i b 0.
+Proof. exact solve_checked_correct. Qed.
+Print Assumptions C09_solve_checked_correct.
+
+Theorem C09_evaluate_policy_fixpoint :
+  forall (d : ddp Q) sigma Rs Qs x,
+  RQ_sigma_fin d sigma = Some (Rs, Qs) ->
+  (forall i, (i < length Qs)%nat -> length (nth i Qs []) = length Qs) ->
+  evaluate_policy d sigma = Some x ->
+  length x = length Qs /\ length Rs = length Qs /\
+  forall i, (i < length Qs)%nat -> nth i x 0 == nth i (T_sigma_rq (d_beta d) Rs Qs x) 0.
+Proof. exact evaluate_policy_fixpoint. Qed.
+Print Assumptions C09_evaluate_policy_fixpoint.
+
+(* ---- backward induction: every horizon, every Num instance (so also beta = 1 and floats) ---- *)
+Theorem C09_backward_induction_spec :
+  forall (T : Type) (NT : Num T) (d : ddp T) (vT : list T) (H : nat),
+  let '(vs, sg) := backward_induction d H vT in
+  length vs = S H /\ length sg = H /\
+  (forall t, (t <= H)%nat -> nth t vs [] = iterT (H - t) (bellman_operator d) vT) /\
+  (forall t, (t < H)%nat -> nth t sg [] = compute_greedy d (nth (S t) vs [])).
+Proof. exact (@backward_induction_spec). Qed.
+Print Assumptions C09_backward_induction_spec.
+
+(* finite-horizon optimality (beta >= 0 arbitrary, so also beta = 1; rows non-negative of length n):
+   no (non-stationary, deterministic) policy sequence has a larger value than vs[0] in any state ... *)
+Theorem C09_backward_induction_dominates :
+  forall d : ddp Q, ddp_ok d -> kernel_nonneg d ->
+  forall vT, length vT = d_n d ->
+  forall pol, (forall sg, In sg pol -> RQ_sigma_fin d sg <> None) ->
+  (forall s, (s < d_n d)%nat ->
+     nth s (pol_value d pol vT) 0 <= nth s (hd [] (fst (backward_induction d (length pol) vT))) 0) /\
+  length (pol_value d pol vT) = d_n d.
+Proof. exact backward_induction_dominates. Qed.
+Print Assumptions C09_backward_induction_dominates.
+
+(* ... and the returned policies are feasible and attain it: vs[0] is the value of the sequence sigmas *)
+Theorem C09_backward_induction_attained :
+  forall d : ddp Q, ddp_ok d -> ddp_distinct d ->
+  forall vT, length vT = d_n d -> forall H,
+  let '(vs, sg) := backward_induction d H vT in
+  (forall s, In s sg -> RQ_sigma_fin d s <> None) /\ length (pol_value d sg vT) = d_n d /\
+  (forall s, (s < d_n d)%nat -> nth s (pol_value d sg vT) 0 == nth s (hd [] vs) 0).
+Proof. exact backward_induction_attained. Qed.
+Print Assumptions C09_backward_induction_attained.
+
+(* ---- constructor: pointer scan and feasibility check ---- *)
+Theorem C09_generate_a_indptr_safe :
+  forall n sidx,
+  exists p, generate_a_indptr n sidx = RVal p /\ length p = S n /\
+            Forall (fun i => (i <= length sidx)%nat) p /\
+            last p 0%nat = length sidx /\ (n > 0 -> hd 1%nat p = 0%nat)%nat.
+Proof. exact generate_a_indptr_safe. Qed.
+Print Assumptions C09_generate_a_indptr_safe.
+
+Theorem C09_generate_a_indptr_sorted :
+  forall n sidx, StronglySorted le sidx -> Forall (fun s => (s < n)%nat) sidx ->
+  generate_a_indptr n sidx = RVal (map (fun i => length (filter (fun s => (s <? i)%nat) sidx)) (seq 0 (S n))).
+Proof. exact generate_a_indptr_sorted. Qed.
+Print Assumptions C09_generate_a_indptr_sorted.
 
 Theorem C09_generate_a_indptr_oob_refuted :
   exists n sidx, has_sorted_sa_indices sidx (seq 0 (length sidx)) = true /\
                  generate_a_indptr_old n sidx = ROob (length sidx).
 Proof. exact generate_a_indptr_oob_refuted. Qed.
 Print Assumptions C09_generate_a_indptr_oob_refuted.
+
+Theorem C09_constructor_no_index_error :
+  forall (T : Type) (NT : Num T) n sidx aidx (R : list (ext T)) Qm beta i,
+  mk_sa n sidx aidx R Qm beta <> CIndexError i.
+Proof. exact (@mk_sa_no_index_error). Qed.
+Print Assumptions C09_constructor_no_index_error.
+
+Theorem C09_constructor_prod_no_index_error :
+  forall (T : Type) (NT : Num T) n m (R : list (list (ext T))) Qm beta i,
+  mk_prod n m R Qm beta <> CIndexError i.
+Proof. exact (@mk_prod_no_index_error). Qed.
+Print Assumptions C09_constructor_prod_no_index_error.
+
+Theorem C09_constructor_unsorted_trailing_empty_refuted :
+  exists n sidx aidx R Qm beta,
+    has_sorted_sa_indices sidx aidx = false /\ ~ In (n - 1)%nat sidx /\
+    mk_sa_old (T:=Q) n sidx aidx R Qm beta = CIndexError 3.
+Proof. exact constructor_unsorted_trailing_empty_refuted. Qed.
+Print Assumptions C09_constructor_unsorted_trailing_empty_refuted.
+
+Theorem C09_constructor_rejects_missing_state :
+  forall (T : Type) (NT : Num T) n sidx aidx (R : list (ext T)) Qm beta,
+  shapes_ok n sidx aidx R Qm = true ->
+  has_sorted_sa_indices sidx aidx = true \/ trip_has_dup (trip_sort (zip3 sidx aidx 0)) = false ->
+  (exists s, (s < n)%nat /\ ~ In s sidx) ->
+  mk_sa n sidx aidx R Qm beta = CValueError.
+Proof. exact (@mk_sa_rejects_missing_state). Qed.
+Print Assumptions C09_constructor_rejects_missing_state.
+
+(* the feasibility test itself (both formulations go through finish_ctor) *)
+Theorem C09_constructor_rejects_partial :
+  forall n sidx aidx indptr (R : list (ext Q)) Qm beta prod,
+  (forall s, (s < n)%nat -> (getn indptr s <= getn indptr (S s))%nat) ->
+  (finish_ctor n sidx aidx indptr R Qm beta prod = CValueError <->
+     (exists s, (s < n)%nat /\
+        (getn indptr s = getn indptr (S s) \/
+         forall j, (getn indptr s <= j < getn indptr (S s))%nat -> gete R j = NegInf))
+     \/ ~ (0 <= beta <= 1)).
+Proof. exact constructor_rejects_partial. Qed.
+Print Assumptions C09_constructor_rejects_partial.
+
+(* full statement of the constructor clause in terms of the *input* arrays; proved above: never
+   IndexError (all inputs) and ValueError when some state has no pair (sorted and unsorted input);
+   the only -inf case is proved relative to the sorted arrays (C09_constructor_rejects_partial),
+   its transport through the CSR re-sorting permutation is decided by correspondence + oracle *)
+Definition C09_constructor_rejects_full : Prop :=
+  forall n sidx aidx (R : list (ext Q)) Qm beta,
+  shapes_ok n sidx aidx R Qm = true ->
+  has_sorted_sa_indices sidx aidx = true \/ trip_has_dup (trip_sort (zip3 sidx aidx 0)) = false ->
+  (mk_sa n sidx aidx R Qm beta = CValueError <->
+     (exists s, (s < n)%nat /\ forall j, (j < length sidx)%nat -> getn sidx j = s -> gete R j = NegInf)
+     \/ ~ (0 <= beta <= 1)).
+
+(* form conversion: decided by correspondence + oracle only *)
+Definition C09_to_sa_to_product_roundtrip_full : Prop :=
+  forall (d : ddp Q) d' d'', d_prod d <> None -> ddp_ok d ->
+  to_sa_pair_form d = COk d' -> to_product_form d' = COk d'' ->
+  forall s a j, lookup_pair d s a = Some j -> gete (d_R d) j <> NegInf ->
+    exists j', lookup_pair d'' s a = Some j' /\ gete (d_R d'') j' = gete (d_R d) j /\ getrow (d_Q d'') j' = getrow (d_Q d) j.
+
+(* ---- the hypotheses are satisfiable: Puterman's example with an extra -inf pair and a tie ---- *)
+Definition ex_d : ddp Q :=
+  mkDDP 2 [0;0;0;1;1]%nat [0;1;2;0;1]%nat [0;3;5]%nat
+        [Fin 5; Fin 10; Fin 10; Fin (-1); NegInf]
+        [[1#2;1#2]; [0;1]; [0;1]; [0;1]; [1;0]] (19#20) None.
+Example ex_d_constructed :
+  mk_sa 2 [1;0;0;1;0]%nat [1;2;0;0;1]%nat [NegInf; Fin 10; Fin 5; Fin (-1); Fin 10]
+        [[1;0]; [0;1]; [1#2;1#2]; [0;1]; [0;1]] (19#20) = COk ex_d.
+Proof. vm_compute. reflexivity. Qed.
+Example ex_d_ok : ddp_ok ex_d.
+Proof.
+  constructor.
+  - reflexivity.
+  - intros s Hs. destruct s as [|[|s]]; cbn in *; lia.
+  - intros s Hs. destruct s as [|[|s]]; [exists 0%nat, 5|exists 3%nat, (-1)|cbn in Hs; lia]; cbn; (split; [lia|reflexivity]).
+Qed.
+Example ex_d_kernel : kernel_nonneg ex_d.
+Proof.
+  constructor.
+  - cbn. lra.
+  - intros j Hj. do 5 (destruct j as [|j]; [reflexivity|]). cbn in Hj. lia.
+  - intros j Hj. do 5 (destruct j as [|j]; [cbn; repeat constructor; lra|]). cbn in Hj. lia.
+Qed.
+Example ex_d_distinct : ddp_distinct ex_d.
+Proof.
+  intros s i j Hs Hi Hj. destruct s as [|[|s]]; cbn in *; [| |lia].
+  - do 3 (destruct i as [|i]; [do 3 (destruct j as [|j]; [cbn; intro; (reflexivity || discriminate)|]); lia|]). lia.
+  - do 3 (destruct i as [|i]; [lia|]). do 2 (destruct i as [|i]; [do 3 (destruct j as [|j]; [lia|]); do 2 (destruct j as [|j]; [cbn; intro; (reflexivity || discriminate)|]); lia|]). lia.
+Qed.
+Example ex_d_runs :
+  bellman_operator ex_d [0;0] = [10; -1] /\ compute_greedy ex_d [0;0] = [1;0]%nat /\
+  evaluate_policy ex_d [0;0]%nat = Some [-60#7; -20] /\
+  RQ_sigma_fin ex_d [0;0]%nat = Some ([5; -1], [[1#2;1#2]; [0;1]]).
+Proof. vm_compute. repeat split. Qed.
